@@ -5,7 +5,7 @@
 import os, sys
 sys.path.insert(0, os.path.join(os.environ.get("AIOFTP_REPO", "/repo"), "src"))
 OBLIGATION = 'aioftp.server:stor_worker@appe::worker.<locals>.wrapper/detach:takes-over-exactly-the-stream-it-read-atomically'
-MODEL = {'block_size!0': 1, 'restart_offset!10': 1, 'chunk!66': 'A', 'data_connection_done!22': True, 'dc_accepted!38': True, 'rest!67': '', 'wait_future_timeout!41': '0/1', 'dc_accepted!43': False, 'dc_accepted!39': False, 'dc_accepted!35': False, 'dc_accepted!30': False, 'dc_accepted!34': False, 'dc_accepted!29': False, 'data_connection_present!21': False, 'user_present!11': True, 'user_done!12': True, 'current_directory_present!15': True, 'current_directory_done!16': True, 'passive_server_present!19': True, 'incoming!55': 'A', 'logged_present!13': True, 'passive_server_done!20': True, 'logged_done!14': True, 'auth_ok!27': True, 'fsbool!37': True, 'writable!33': True}
+MODEL = {'block_size!0': 1, 'restart_offset!10': 1, 'data_connection_done!22': True, 'rest!102': '', 'dc_accepted!38': True, 'wait_future_timeout!48': '0/1', 'chunk!101': 'A', 'dc_accepted!50': False, 'dc_accepted!39': False, 'dc_accepted!35': False, 'dc_accepted!30': False, 'dc_accepted!34': False, 'dc_accepted!29': False, 'data_connection_present!21': False, 'user_present!11': True, 'current_directory_done!74': True, 'current_directory_present!52': True, 'current_directory_present!41': True, 'current_directory_present!94': True, 'current_directory_done!53': True, 'writable!33': True, 'current_directory_done!16': True, 'passive_server_present!19': True, 'current_directory_done!95': True, 'incoming!83': 'A', 'user_done!12': True, 'current_directory_done!63': True, 'passive_server_done!20': True, 'logged_done!14': True, 'current_directory_present!73': True, 'fsbool!37': True, 'current_directory_done!107': True, 'current_directory_done!117': True, 'current_directory_present!116': True, 'current_directory_present!15': True, 'logged_present!13': True, 'current_directory_done!42': True, 'current_directory_present!106': True, 'current_directory_present!62': True, 'auth_ok!27': True}
 SOLVER_NOTE = ''
 
 print("obligation", OBLIGATION, "failed; no concrete failing input could be constructed automatically")
